@@ -7,6 +7,7 @@ import numpy as np
 from .. import core, symbols
 from ..translate import guards as tr_guards
 from ..translate import spectral as tr_spectral
+from ..translate import linops as tr_linops
 
 ID = "C05"
 PROPS_FILE = "C05"
@@ -22,7 +23,7 @@ def translate(ctx):
     """Gen/Guards.v and Gen/SpectralGen.v (the derivative operator of _spectral.py, tied to the layout by Tie/SpectralTie.v and the
     theorem C05_code_derivative_operator_is_model); both are always attempted"""
     errors = []
-    for name, tr in (("guards", tr_guards), ("spectral", tr_spectral)):
+    for name, tr in (("guards", tr_guards), ("spectral", tr_spectral), ("linops", tr_linops)):
         try:
             tr.run()
         except Exception as e:
